@@ -178,6 +178,7 @@ fn check_pattern(c: &PatCase, obs: &mut Obs) -> CheckResult {
     let mut matched = 0u64;
     for hs in hopsets {
         let want = rp::pattern_matches(&c.seq, hs);
+        ensure!(rp::pattern_matches_nfa(&c.seq, hs) == want, "harness:reference-matchers-disagree", "derivative matcher {want}, NFA matcher {} on {canon:?} {hs:?}", !want);
         let sh = sut_hops(hs);
         let got0 = vcore::no_panic("HopPatternPolicy::matches", || p0.matches(&sh))?;
         let got1 = vcore::no_panic("HopPatternPolicy::matches", || p1.matches(&sh))?;
@@ -485,6 +486,144 @@ fn run_soup(ctx: &Ctx) {
     }, check_soup);
 }
 
+
+// ---------------------------------------------------------- nested repetition: termination
+
+/// A leaf wrapped in many repetition operators (optionally alternated with a second leaf on the
+/// way): matching must finish (the property says "parsing and matching always terminate") and
+/// agree with the regular language.
+#[derive(Clone, Debug, Serialize, Deserialize)]
+struct NestCase {
+    leaf: Pred,
+    other: Pred,
+    /// 0 '?', 1 '+', 2 '*', 3 '| other' around the expression so far
+    ops: Vec<u8>,
+    hops: Vec<Hop>,
+}
+
+const NEST_BUDGET: std::time::Duration = std::time::Duration::from_secs(20);
+
+/// set once a case did not finish: its thread keeps a core busy, the remaining cases are skipped
+static NEST_GAVE_UP: std::sync::atomic::AtomicBool = std::sync::atomic::AtomicBool::new(false);
+
+fn check_nested(c: &NestCase, obs: &mut Obs) -> CheckResult {
+    if NEST_GAVE_UP.load(std::sync::atomic::Ordering::Relaxed) {
+        obs.label("skipped-after-non-termination");
+        return Ok(());
+    }
+    let mut pat = Pat::P(c.leaf);
+    for o in &c.ops {
+        pat = match o % 4 {
+            0 => Pat::Opt(Box::new(pat)),
+            1 => Pat::Plus(Box::new(pat)),
+            2 => Pat::Star(Box::new(pat)),
+            _ => Pat::Or(Box::new(pat), Box::new(Pat::P(c.other))),
+        };
+    }
+    let seq = vec![pat];
+    let text = rp::show_seq(&seq, &mut 0);
+    let sh = sut_hops(&c.hops);
+    // the SUT runs in a helper thread: a run that is still going after 30 s (the repaired matcher
+    // needs milliseconds; the doubling-per-level one needs longer than any budget from ~35 levels
+    // on) is reported as non-termination
+    let (tx, rx) = std::sync::mpsc::channel();
+    let t2 = text.clone();
+    std::thread::Builder::new().stack_size(64 << 20).spawn(move || {
+        let r = std::panic::catch_unwind(|| HopPatternPolicy::parse(&t2).map(|p| p.matches(&sh)).map_err(|e| format!("{e:?}")));
+        let _ = tx.send(r.map_err(|_| ()));
+    }).map_err(|e| Fail::new("harness:spawn", e.to_string()))?;
+    let got = match rx.recv_timeout(NEST_BUDGET) {
+        Ok(Ok(Ok(b))) => b,
+        Ok(Ok(Err(e))) => return Err(Fail::new("nested-pattern-rejected", format!("{} nested operators: {e}", c.ops.len()))),
+        Ok(Err(())) => return Err(Fail::new("panic:nested-pattern", format!("panic while parsing/matching a pattern of {} nested operators", c.ops.len()))),
+        Err(_) => {
+            NEST_GAVE_UP.store(true, std::sync::atomic::Ordering::Relaxed);
+            return Err(Fail::new("matching-does-not-finish:nested-repetition", format!("pattern of {} nested operators ({} characters) on {} hops still running after {NEST_BUDGET:?}", c.ops.len(), text.len(), c.hops.len())));
+        }
+    };
+    let want = rp::pattern_matches_nfa(&seq, &c.hops);
+    ensure!(got == want, if want { "pattern-false-negative" } else { "pattern-false-positive" }, "{} nested operators on hops {:?}: SUT {got}, regular language {want}", c.ops.len(), c.hops);
+    obs.label(format!("nested-depth-{}", (c.ops.len() / 16) * 16));
+    obs.nontrivial(&(&c.ops, &c.hops, c.leaf, c.other));
+    Ok(())
+}
+
+fn run_nested(ctx: &Ctx) {
+    // enumerated from a counter (no shrinking: every shrink step of a non-terminating case would
+    // wait for the budget again)
+    let n = ctx.tier.pick(3_000u64, 100_000);
+    let alpha = pred_alphabet();
+    let seed = ctx.seed;
+    ctx.run_enum("patterns-nested-repetition", n, false, |i| {
+        let mut x = (i.wrapping_mul(0x9e3779b97f4a7c15) ^ seed.wrapping_mul(0xd1342543de82ef95)) | 1;
+        let mut nx = || { x ^= x << 13; x ^= x >> 7; x ^= x << 17; x };
+        let depth = 13 + (nx() % 52) as usize;
+        let ops: Vec<u8> = (0..depth).map(|_| { let r = nx() % 8; if r < 6 { (r % 3) as u8 } else { 3 } }).collect();
+        let hl = [0usize, 0, 1, 2, 3, 5, 8, 13, 20][(nx() % 9) as usize];
+        let hops = if hl == 0 { vec![] } else { hop_seq(nx() % hop_seq_count(hl.min(15)), hl) };
+        Some(NestCase { leaf: alpha[(nx() % alpha.len() as u64) as usize], other: alpha[(nx() % alpha.len() as u64) as usize], ops, hops })
+    }, check_nested);
+}
+
+// ---------------------------------------------------------- extreme nesting: no stack overflow
+
+/// A stack overflow aborts the process and cannot be caught: the probe runs in a child process
+/// (this binary with `--probe-nesting`), on its main thread with the default stack.
+#[derive(Clone, Debug, Serialize, Deserialize)]
+struct DeepCase {
+    /// 0 parentheses, 1 alternation chain, 2 stacked postfix operators, 3 long sequence,
+    /// 4 parenthesised postfix tower "((1*)*)*"
+    kind: u8,
+    n: u32,
+}
+
+fn deep_text(kind: u8, n: usize) -> String {
+    match kind % 5 {
+        0 => format!("{}1{}", "(".repeat(n), ")".repeat(n)),
+        1 => vec!["1"; n.max(1)].join("|"),
+        2 => format!("1{}", "*+?".repeat(n / 3 + 1)),
+        3 => vec!["1"; n.max(1)].join(" "),
+        _ => format!("{}1{}", "(".repeat(n), "*)".repeat(n)),
+    }
+}
+
+fn probe_nesting_child(kind: u8, n: usize) {
+    let s = deep_text(kind, n);
+    match HopPatternPolicy::parse(&s) {
+        Ok(p) => {
+            let q = p.clone();
+            let m = p.matches(&[]) as u8 + q.matches(&sut_hops(&conc_seq(0x1b, 3))) as u8;
+            drop(p);
+            println!("parsed {m}");
+        }
+        Err(e) => println!("rejected {}", e.report(&s).len()),
+    }
+}
+
+fn check_deep(c: &DeepCase, obs: &mut Obs) -> CheckResult {
+    let exe = std::env::current_exe().map_err(|e| Fail::new("harness:current-exe", e.to_string()))?;
+    let out = std::process::Command::new(exe)
+        .args(["--probe-nesting", &c.kind.to_string(), &c.n.to_string()])
+        .env_remove("VERIF_PART")
+        .output()
+        .map_err(|e| Fail::new("harness:spawn-child", e.to_string()))?;
+    let stdout = String::from_utf8_lossy(&out.stdout);
+    let stderr = String::from_utf8_lossy(&out.stderr);
+    if !out.status.success() {
+        let what = if stderr.contains("stack overflow") { "stack-overflow" } else if stderr.contains("panicked") { "panic" } else { "abnormal-exit" };
+        return Err(Fail::new(format!("{what}:extremely-nested-pattern:kind-{}", c.kind % 5), format!("pattern kind {} with n={} ({} characters): child ended with {:?}; stderr: {}", c.kind % 5, c.n, deep_text(c.kind, c.n as usize).len(), out.status, stderr.lines().last().unwrap_or(""))));
+    }
+    obs.label(if stdout.starts_with("parsed") { "deep-pattern-parsed" } else { "deep-pattern-rejected" });
+    obs.nontrivial(&(c.kind % 5, c.n));
+    Ok(())
+}
+
+fn run_deep(ctx: &Ctx) {
+    let sizes: Vec<u32> = ctx.tier.pick(vec![100, 255, 256, 257, 1_000, 10_000, 100_000, 1_000_000], vec![100, 200, 255, 256, 257, 300, 1_000, 3_000, 10_000, 30_000, 100_000, 300_000, 1_000_000, 3_000_000]);
+    let cases: Vec<DeepCase> = (0..5u8).flat_map(|k| sizes.iter().map(move |n| DeepCase { kind: k, n: *n })).collect();
+    ctx.run_list("patterns-extreme-nesting", &cases, check_deep);
+}
+
 fn post(ctx: &Ctx) {
     ctx.require_label("pattern-tricky", 100);
     ctx.require_label("acl-decided-by-non-first-entry", 100);
@@ -492,6 +631,11 @@ fn post(ctx: &Ctx) {
 }
 
 fn main() {
+    let args: Vec<String> = std::env::args().collect();
+    if args.get(1).map(|a| a == "--probe-nesting").unwrap_or(false) {
+        probe_nesting_child(args[2].parse().unwrap_or(0), args[3].parse().unwrap_or(0));
+        return;
+    }
     let subs = [
         Sub { name: "predicates-exhaustive", run: run_preds, replay: |c, v| c.replay_case::<PredCase>("predicates", v, check_pred) },
         Sub { name: "predicates-random", run: |_| {}, replay: |c, v| c.replay_case::<PredCase>("predicates", v, check_pred) },
@@ -501,6 +645,8 @@ fn main() {
         Sub { name: "patterns-exh-sequences", run: |_| {}, replay: |c, v| c.replay_case::<PatCase>("patterns", v, check_pattern) },
         Sub { name: "patterns-exh-depth3", run: |_| {}, replay: |c, v| c.replay_case::<PatCase>("patterns", v, check_pattern) },
         Sub { name: "patterns-random", run: |_| {}, replay: |c, v| c.replay_case::<PatCase>("patterns", v, check_pattern) },
+        Sub { name: "patterns-nested-repetition", run: run_nested, replay: |c, v| c.replay_case::<NestCase>("nested", v, check_nested) },
+        Sub { name: "patterns-extreme-nesting", run: run_deep, replay: |c, v| c.replay_case::<DeepCase>("deep", v, check_deep) },
         Sub { name: "parser-soup", run: run_soup, replay: |c, v| c.replay_case::<SoupCase>("parser-soup", v, check_soup) },
     ];
     vcore::main(
